@@ -49,6 +49,38 @@ def check(model: Model, rep: Report, tier: str):
         q10(model, rep)
     with rep.isolated():
         q11(model, rep)
+    with rep.isolated():
+        q12(model, rep)
+
+
+def q12(model: Model, rep: Report):
+    """An operation is what it is (identifier, type) however it was made."""
+    rep.rule("C16.Q12", "Operation.type_idle / type_park / type_gate build plain Operation objects: dataclass equality is class-strict, so a factory that returns a subclass makes "
+                        "Operation(identifier, type) unequal to the factory-built operation on the same identifier -- the acceptance test compares requested operations with the "
+                        "allowed ones by equality and then rejects every gate made with the constructor")
+    from .c05 import eq_kind
+    O = model.cls("Operation")
+    n = 0
+    for nm in ("type_idle", "type_park", "type_gate"):
+        f = O.resolve(nm)
+        if f is None:
+            raise AnalysisError(f"Operation.{nm} vanished")
+        try:
+            v = Evaluator(model, inline_methods=False).value_of(f, self_cls=O)
+        except Unsupported as e:
+            raise AnalysisError(f"Operation.{nm}: {e}")
+        n += 1
+        built = v[1] if v is not None and v[0] == "new" else None
+        if built is None and v is not None and v[0] == "call" and isinstance(v[1], tuple) and v[1][0] in ("cls", "sym"):
+            built = "Operation"         # cls(...): the class the factory was called on
+        if built is None:
+            raise AnalysisError(f"Operation.{nm}: value {show(v)[:80]} is not a construction")
+        K = model.maybe_cls(built)
+        strict = K is not None and K is not O and O in K.mro() and eq_kind(K) == "generated"
+        rep.check(not strict, "C16.Q12", f"Operation.{nm}", f.loc, found=f"builds {built}" + (" (dataclass subclass: generated __eq__ compares the class too)" if strict else ""),
+                  required="Operation(identifier=..., type=...)", what=f"Operation.{nm}(x) == Operation(identifier=x, type=...) is False: operations made with the constructor never "
+                  "match the generator's allowed operations", detail="factory-class")
+    rep.floor("Operation factory classmethods", n, 3)
 
 
 def q11(model: Model, rep: Report):
